@@ -67,3 +67,28 @@ Definition canonical_kind (pver : N) (k : kind) : bool :=
    (the factor covers Go's in-memory element size versus the wire size) *)
 Definition BigBase : N := 33554432.
 Definition big_flag (alloc limit : N) : bool := BigBase + 4 * limit <? alloc.
+
+(* the longest payload a WELL-FORMED message of the kind can have at this protocol version (None: no
+   well-formed message of the kind exists there, or the kind is outside the model / has the global
+   limit).  "Every well-formed message fits the MaxPayloadLength of its type" is checked against the
+   implementation's own table with this function (L cases). *)
+Definition max_wf_payload_len (k : kind) (pver : N) : option N :=
+  match k with
+  | KVersion => Some (4 + 8 + 8 + 26 + 26 + 8 + 3 + MaxUserAgentLen + 4 + (if BIP0037Version <=? pver then 1 else 0))
+  | KVerAck | KGetAddr => Some 0
+  | KAddr =>
+    Some (if pver <? MultipleAddressVersion then 1 + netaddr_size pver true
+          else 3 + MaxAddrPerMsg * netaddr_size pver true)
+  | KGetBlocks | KGetHeaders => Some (4 + 3 + 32 * MaxBlockLocatorsPerMsg + 32)
+  | KHeaders => Some (3 + 81 * MaxBlockHeadersPerMsg)
+  | KInv | KGetData | KNotFound => Some (3 + 36 * MaxInvPerMsg)
+  | KPing => Some (if BIP0031Version <? pver then 8 else 0)
+  | KPong => if BIP0031Version <? pver then Some 8 else None
+  | KSendHeaders => if SendHeadersVersion <=? pver then Some 0 else None
+  | KFeeFilter => if FeeFilterVersion <=? pver then Some 8 else None
+  | KMemPool => if BIP0035Version <=? pver then Some 0 else None
+  | KFilterAdd => if BIP0037Version <=? pver then Some (3 + MaxFilterAddDataSize) else None
+  | KFilterClear => if BIP0037Version <=? pver then Some 0 else None
+  | KFilterLoad => if BIP0037Version <=? pver then Some (3 + MaxFilterLoadFilterSize + 9) else None
+  | _ => None
+  end.
